@@ -88,18 +88,121 @@ package encoder
 //@   trusted sync.Pool.Put has no effect on modelled state
 //@   assigns nothing
 
+// Uniform contract of the token copiers: they append to dst (never touching what was there, nor src),
+// consume at least one byte of src and stop inside it. apart(): the destination array and src do not overlap.
+//@ spec apart(d, s) := cap(d) == 0 || ptrOf(d) + cap(d) <= ptrOf(s) || ptrOf(s) + len(s) <= ptrOf(d)
+//@ spec copied(dst, res, src, cursor, c) := len(res) >= len(dst) && cursor < c && c < len(src) && apart(res, src)
+//@ spec keeps(a, n) := forall k :: 0 <= k && k < n ==> a[k] == old(a[k])
+//@ spec floatChar(c) := digit(c) || c == '.' || c == 'e' || c == 'E' || c == '+' || c == '-'
+//@ tablelemma[C18,C06,C03] floatTable(j, v) := v <==> floatChar(j)
+//@ tablelemma[C18,C06,C17] isHTMLEscapeChar(j, v) := v <==> (j == '<' || j == '>' || j == '&')
+
 //@ func compactValue(dst, src, cursor, escape) (res, c, err)
-//@   props C18
-//@   trusted recursive token copier; body not yet under contract (its callees validateEndBuf / skipWhiteSpace are verified)
-//@   requires bufOK(src, cursor)
-//@   ensures err == nil ==> len(res) >= len(dst) && cursor < c && c < len(src)
+//@   props C18 C06
+//@   requires bufOK(src, cursor) && apart(dst, src)
+//@   ensures err == nil ==> copied(dst, res, src, cursor, c)
 //@   ensures err == nil ==> forall k :: 0 <= k && k < len(dst) ==> res[k] == old(dst[k])
 //@   ensures forall k :: 0 <= k && k < len(src) ==> src[k] == old(src[k])
 //@   assigns M
+//@   loop 1: invariant old(cursor) <= cursor && cursor < len(src)
+//@   loop 1: decreases len(src) - cursor
+
+//@ func compactObject(dst, src, cursor, escape) (res, c, err)
+//@   props C18 C06
+//@   requires bufOK(src, cursor) && apart(dst, src)
+//@   ensures err == nil ==> copied(dst, res, src, cursor, c)
+//@   ensures err == nil ==> forall k :: 0 <= k && k < len(dst) ==> res[k] == old(dst[k])
+//@   ensures forall k :: 0 <= k && k < len(src) ==> src[k] == old(src[k])
+//@   assigns M
+//@   loop 1: invariant old(cursor) < cursor && bufOK(src, cursor) && apart(dst, src) && len(dst) >= old(len(dst))
+//@   loop 1: invariant forall k :: 0 <= k && k < old(len(dst)) ==> dst[k] == old(dst[k])
+//@   loop 1: invariant forall k :: 0 <= k && k < len(src) ==> src[k] == old(src[k])
+//@   loop 1: decreases len(src) - cursor
+
+//@ func compactArray(dst, src, cursor, escape) (res, c, err)
+//@   props C18 C06
+//@   requires bufOK(src, cursor) && apart(dst, src)
+//@   ensures err == nil ==> copied(dst, res, src, cursor, c)
+//@   ensures err == nil ==> forall k :: 0 <= k && k < len(dst) ==> res[k] == old(dst[k])
+//@   ensures forall k :: 0 <= k && k < len(src) ==> src[k] == old(src[k])
+//@   assigns M
+//@   loop 1: invariant old(cursor) < cursor && bufOK(src, cursor) && apart(dst, src) && len(dst) >= old(len(dst))
+//@   loop 1: invariant forall k :: 0 <= k && k < old(len(dst)) ==> dst[k] == old(dst[k])
+//@   loop 1: invariant forall k :: 0 <= k && k < len(src) ==> src[k] == old(src[k])
+//@   loop 1: decreases len(src) - cursor
+
+//@ func compactNumber(dst, src, cursor) (res, c, err)
+//@   props C18 C06
+//@   requires bufOK(src, cursor) && apart(dst, src) && (src[cursor] == '-' || digit(src[cursor]))
+//@   ensures err == nil ==> copied(dst, res, src, cursor, c)
+//@   ensures err == nil ==> forall k :: 0 <= k && k < len(dst) ==> res[k] == old(dst[k])
+//@   ensures forall k :: 0 <= k && k < len(src) ==> src[k] == old(src[k])
+// the token copied is the maximal floatTable run (grammar: lemma L-num) and it is copied verbatim
+//@   ensures err == nil ==> len(res) == len(dst) + (c - cursor) && !floatChar(src[c])
+//@   ensures err == nil ==> forall k :: 0 <= k && k < c - cursor ==> res[len(dst)+k] == old(src[cursor+k]) && (k == 0 || floatChar(old(src[cursor+k])))
+//@   assigns M
+//@   loop 1: invariant old(cursor) <= cursor && cursor < len(src) - 1
+//@   loop 1: invariant forall k :: 0 <= k && k < cursor - old(cursor) ==> floatChar(src[old(cursor)+1+k])
+//@   loop 1: decreases len(src) - cursor
+
+//@ func compactTrue(dst, src, cursor) (res, c, err)
+//@   props C18 C06
+//@   requires bufOK(src, cursor) && apart(dst, src)
+//@   ensures err == nil ==> copied(dst, res, src, cursor, c)
+//@   ensures err == nil ==> forall k :: 0 <= k && k < len(dst) ==> res[k] == old(dst[k])
+//@   ensures forall k :: 0 <= k && k < len(src) ==> src[k] == old(src[k])
+//@   ensures err == nil ==> c == cursor + 4 && src[cursor] == 't' && src[cursor+1] == 'r' && src[cursor+2] == 'u' && src[cursor+3] == 'e'
+//@   ensures err == nil ==> len(res) == len(dst) + 4 && res[len(dst)] == 't' && res[len(dst)+1] == 'r' && res[len(dst)+2] == 'u' && res[len(dst)+3] == 'e'
+//@   assigns M
+
+//@ func compactFalse(dst, src, cursor) (res, c, err)
+//@   props C18 C06
+//@   requires bufOK(src, cursor) && apart(dst, src)
+//@   ensures err == nil ==> copied(dst, res, src, cursor, c)
+//@   ensures err == nil ==> forall k :: 0 <= k && k < len(dst) ==> res[k] == old(dst[k])
+//@   ensures forall k :: 0 <= k && k < len(src) ==> src[k] == old(src[k])
+//@   ensures err == nil ==> c == cursor + 5 && src[cursor] == 'f' && src[cursor+1] == 'a' && src[cursor+2] == 'l' && src[cursor+3] == 's' && src[cursor+4] == 'e'
+//@   ensures err == nil ==> len(res) == len(dst) + 5 && res[len(dst)] == 'f' && res[len(dst)+1] == 'a' && res[len(dst)+2] == 'l' && res[len(dst)+3] == 's' && res[len(dst)+4] == 'e'
+//@   assigns M
+
+//@ func compactNull(dst, src, cursor) (res, c, err)
+//@   props C18 C06
+//@   requires bufOK(src, cursor) && apart(dst, src)
+//@   ensures err == nil ==> copied(dst, res, src, cursor, c)
+//@   ensures err == nil ==> forall k :: 0 <= k && k < len(dst) ==> res[k] == old(dst[k])
+//@   ensures forall k :: 0 <= k && k < len(src) ==> src[k] == old(src[k])
+//@   ensures err == nil ==> c == cursor + 4 && src[cursor] == 'n' && src[cursor+1] == 'u' && src[cursor+2] == 'l' && src[cursor+3] == 'l'
+//@   ensures err == nil ==> len(res) == len(dst) + 4 && res[len(dst)] == 'n' && res[len(dst)+1] == 'u' && res[len(dst)+2] == 'l' && res[len(dst)+3] == 'l'
+//@   assigns M
+
+//@ spec htmlChar(c) := c == '<' || c == '>' || c == '&'
+//@ spec lineSepAt(b, k) := b[k] == 226 && k + 2 < len(b) && b[k+1] == 128 && (b[k+2] == 168 || b[k+2] == 169)
+
+//@ func compactString(dst, src, cursor, escape) (res, c, err)
+//@   props C18 C06 C17
+//@   requires bufOK(src, cursor) && apart(dst, src)
+//@   ensures err == nil ==> copied(dst, res, src, cursor, c)
+//@   ensures err == nil ==> forall k :: 0 <= k && k < len(dst) ==> res[k] == old(dst[k])
+//@   ensures forall k :: 0 <= k && k < len(src) ==> src[k] == old(src[k])
+// token shape: opening and closing quote, no NUL byte inside
+//@   ensures err == nil ==> src[cursor] == '"' && c >= cursor + 2 && src[c-1] == '"'
+//@   ensures err == nil ==> forall k :: 0 <= k && k < c - cursor ==> src[cursor+k] != 0
+// with escape, no raw < > & is appended
+//@   ensures err == nil && escape ==> forall k :: 0 <= k && k < len(res) - len(dst) ==> !htmlChar(res[len(dst)+k])
+//@   assigns M
+//@   nomerge
+//@   loop 1: invariant old(cursor) <= start && old(cursor) <= cursor && start <= cursor + 1 && cursor < len(src) && src[cursor] != 0 && src[len(src)-1] == 0
+//@   loop 1: invariant forall k :: 0 <= k && k <= cursor - old(cursor) ==> src[old(cursor)+k] != 0
+//@   loop 1: invariant apart(dst, src) && len(dst) >= old(len(dst))
+//@   loop 1: invariant forall k :: 0 <= k && k < old(len(dst)) ==> dst[k] == old(dst[k])
+//@   loop 1: invariant forall k :: 0 <= k && k < len(src) ==> src[k] == old(src[k])
+//@   loop 1: invariant escape ==> forall k :: 0 <= k && k < len(dst) - old(len(dst)) ==> !htmlChar(dst[old(len(dst))+k])
+//@   loop 1: invariant escape ==> forall k :: 0 <= k && k <= cursor - start ==> !htmlChar(src[start+k])
+//@   loop 1: decreases len(src) - cursor
 
 //@ func compact(dst, src, escape) (res, err)
 //@   props C18 C03
-//@   requires bufOK(src, 0)
+//@   requires bufOK(src, 0) && apart(dst, src)
 //@   ensures err == nil ==> len(res) >= len(dst)
 //@   ensures err == nil ==> forall k :: 0 <= k && k < len(dst) ==> res[k] == old(dst[k])
 //@   assigns M
@@ -108,7 +211,7 @@ package encoder
 // otherwise bytes already in the buffer are written a second time.
 //@ func compactAndWrite(buf, dst, src, escape) (err)
 //@   props C18
-//@   requires buf != nil && bufOK(src, 0)
+//@   requires buf != nil && bufOK(src, 0) && apart(dst, src)
 //@   requires len(dst) == 0
 //@   ghost out := len(dst)
 //@   ensures err != nil ==> bufLen(buf) == old(bufLen(buf)) && bufSame(buf, old(bufLen(buf)))
@@ -120,4 +223,45 @@ package encoder
 //@   requires buf != nil
 //@   ensures err != nil ==> bufLen(buf) == old(bufLen(buf)) && bufSame(buf, old(bufLen(buf)))
 //@   ensures err == nil ==> bufLen(buf) >= old(bufLen(buf)) && bufSame(buf, old(bufLen(buf)))
+// distinct allocations: the bytes.Buffer's array and the pooled RuntimeContext buffer never overlap
+//@   callassume compactAndWrite: apart(dst, ctxBuf)
+//@   assigns M, RuntimeContext.Buf
+
+//@ func indentValue(dst, src, indentNum, cursor, prefix, indentBytes, escape) (res, c, err)
+//@   props C18
+//@   trusted recursive token copier; body not yet under contract
+//@   requires bufOK(src, cursor) && apart(dst, src)
+//@   ensures err == nil ==> len(res) >= len(dst) && cursor < c && c < len(src)
+//@   ensures err == nil ==> forall k :: 0 <= k && k < len(dst) ==> res[k] == old(dst[k])
+//@   ensures forall k :: 0 <= k && k < len(src) ==> src[k] == old(src[k])
+//@   assigns M
+
+//@ func doIndent(dst, src, prefix, indentStr, escape) (res, err)
+//@   props C18 C03
+//@   requires bufOK(src, 0) && apart(dst, src)
+//@   ensures err == nil ==> len(res) >= len(dst)
+//@   ensures err == nil ==> forall k :: 0 <= k && k < len(dst) ==> res[k] == old(dst[k])
+//@   assigns M
+
+//@ func indentAndWrite(buf, dst, src, prefix, indentStr) (res, err)
+//@   props C18
+//@   requires buf != nil && bufOK(src, 0) && apart(dst, src)
+//@   requires len(dst) == 0
+//@   ensures err != nil ==> bufLen(buf) == old(bufLen(buf)) && bufSame(buf, old(bufLen(buf)))
+//@   ensures err == nil ==> bufLen(buf) == old(bufLen(buf)) + len(res) && bufSame(buf, old(bufLen(buf)))
+//@   assigns M
+
+//@ func takeIndentSrcRuntimeContext(src) (ctx, buf)
+//@   props C18
+//@   ensures ctx != nil && len(buf) == len(src) + 1 && buf[len(src)] == 0
+//@   ensures forall k :: 0 <= k && k < len(src) ==> buf[k] == old(src[k])
+//@   assigns M, RuntimeContext.Buf
+
+//@ func Indent(buf, src, prefix, indentStr) (err)
+//@   props C18
+//@   requires buf != nil
+//@   ensures err != nil ==> bufLen(buf) == old(bufLen(buf)) && bufSame(buf, old(bufLen(buf)))
+//@   ensures err == nil ==> bufLen(buf) >= old(bufLen(buf)) && bufSame(buf, old(bufLen(buf)))
+// distinct allocations: two different pooled RuntimeContext buffers never overlap
+//@   callassume indentAndWrite: apart(dstCtx.Buf, srcBuf)
 //@   assigns M, RuntimeContext.Buf
